@@ -176,15 +176,12 @@ pub struct RefRun {
 pub fn print_bytes(kind: &PrintKind, s: &RefM) -> Option<Vec<u8>> {
     let (start, end): (u64, u64) = match kind {
         PrintKind::Flags | PrintKind::Reg => return None,
-        PrintKind::MemRange(a, b) => ((*a % (1 << 20)) as u64, (*b % (1 << 20)) as u64),
-        PrintKind::MemLen(a, n) => {
-            let a = (*a % (1 << 20)) as u64;
-            let n = (*n % (1 << 20)) as u64;
-            (a, a + n)
-        }
+        // a constant of 2^20 or more is outside the memory space: reported, never wrapped
+        PrintKind::MemRange(a, b) => (*a as u64, *b as u64),
+        PrintKind::MemLen(a, n) => (*a as u64, *a as u64 + *n as u64),
         PrintKind::MemDs(n) => {
             let a = s.r.ds as u64 * 16;
-            (a, a + (*n % (1 << 20)) as u64)
+            (a, a + *n as u64)
         }
     };
     if start > end || end >= (1 << 20) {
@@ -221,17 +218,25 @@ pub fn parse_prompt_print(line: &str) -> Option<PrintKind> {
     }
     let num = |s: &str| -> Option<u32> {
         let s = s.trim();
+        let digits_ok = |d: &str, r: u32| !d.is_empty() && d.chars().all(|c| c.is_digit(r));
         let v = if let Some(h) = s.strip_prefix("0x") {
-            u64::from_str_radix(h, 16).ok()?
+            if !digits_ok(h, 16) {
+                return None;
+            }
+            u64::from_str_radix(h, 16).unwrap_or(u64::MAX)
         } else if let Some(b) = s.strip_prefix("0b") {
-            u64::from_str_radix(b, 2).ok()?
+            if !digits_ok(b, 2) {
+                return None;
+            }
+            u64::from_str_radix(b, 2).unwrap_or(u64::MAX)
         } else {
-            s.parse::<u64>().ok()?
+            if !digits_ok(s, 10) {
+                return None;
+            }
+            s.parse::<u64>().unwrap_or(u64::MAX)
         };
-        if v > u32::MAX as u64 {
-            return None;
-        }
-        Some((v % (1 << 20)) as u32)
+        // anything that does not fit is "some constant beyond the memory space"
+        Some(v.min(u32::MAX as u64) as u32)
     };
     match t[1] {
         "flags" if t.len() == 2 => Some(PrintKind::Flags),
